@@ -330,6 +330,10 @@ pub enum CosmosMsg {
     SwapIn(crate::osmosis_std::types::osmosis::poolmanager::v1beta1::MsgSwapExactAmountIn),
     SwapOut(crate::osmosis_std::types::osmosis::poolmanager::v1beta1::MsgSwapExactAmountOut),
 }
+impl Clone for CosmosMsg {
+    #[verifier::external_body]
+    fn clone(&self) -> (r: Self) ensures r == *self { unimplemented!() }
+}
 #[derive(Debug)]
 pub struct SubMsg { pub id: u64, pub msg: CosmosMsg, pub gas_limit: Option<u64>, pub reply_on: ReplyOn }
 #[derive(Debug)]
